@@ -869,6 +869,7 @@ def bounded_search(kind, entries, want, tier, extra_payload=None):
     """entries: [(entry_fn(nall), post)]; replay driver `kind` of c12_replay.py evaluates clauses natively."""
     found, spurious = {}, {}
     t0 = time.time()
+    attempts = {}
     for nall in (1, 2):
         for mk_entry, post in entries:
             if not (set(want) - set(found)) or time.time() - t0 > (25 if tier == 'quick' else 120):
@@ -879,12 +880,13 @@ def bounded_search(kind, entries, want, tier, extra_payload=None):
                 run = p.run
                 obs = [(n, f) for (n, f, npc, nax, info) in run.obligations] + list(post(p))
                 for name, f in obs:
-                    if name not in want or name in found:
-                        continue
+                    if name not in want or name in found or attempts.get(name, 0) >= 3 or time.time() - t0 > (40 if tier == 'quick' else 120):
+                        continue          # budget: at most 3 native replays per obligation, bounded wall time
                     pre = [run.subset] if hasattr(run, 'subset') else []
-                    v, model, dt = E.discharge(run, f if not isinstance(f, bool) else z3.BoolVal(f), timeout_ms=5000, extra=pre)
+                    v, model, dt = E.discharge(run, f if not isinstance(f, bool) else z3.BoolVal(f), timeout_ms=3000, extra=pre)
                     if v != 'sat':
                         continue
+                    attempts[name] = attempts.get(name, 0) + 1
                     payload = model_world(run, model, nall)
                     payload.update(extra_payload(run, model) if extra_payload else {})
                     res, raw = ckit.run_replay('c12_replay.py', [kind], payload)
